@@ -5487,7 +5487,8 @@ class Symbol:
                         not any(c == "_" or c.isspace() for c in value)
                         and (
                             (self.orig_type == INT and _is_base_n(value, 10))  # valid int
-                            or (self.orig_type == HEX and _is_base_n(value, 16) and int(value, 16) >= 0)  # valid hex
+                            # valid hex: no sign ("+0x5" and "-0" would pass the numeric test and be rendered as 0x+0x5 / 0x-0)
+                            or (self.orig_type == HEX and value[:1] not in ("+", "-") and _is_base_n(value, 16))
                             or (self.orig_type == FLOAT and is_float(value))  # valid float
                         )
                     )
